@@ -621,8 +621,10 @@ class Pass2(CompilePass):
 
     def process_lvalue_pre(self, node):
         const = node.parent_routine.local_consts.get(node.base_var)
+        const_routine = node.parent_routine
         if const is None:
             const = self.compilation.global_consts.get(node.base_var)
+            const_routine = self.compilation.main_routine
         if const is not None:
             if node.array_indices or node.dotted_vars:
                 raise CompileError(
@@ -636,6 +638,15 @@ class Pass2(CompilePass):
             const.loc_start = node.loc_start
             const.loc_end = node.loc_end
             node.parent.replace_child(node, const)
+
+            # names used in the constant's expression are those of
+            # the routine it was defined in, not of the routine that
+            # uses the constant
+            pending = [const]
+            while pending:
+                sub_node = pending.pop()
+                sub_node._parent_routine = const_routine
+                pending.extend(sub_node.children)
 
             return
 
